@@ -2,7 +2,7 @@
 (***************************************************************************)
 (* Constants of C09 (single source of truth, exported to the harness and    *)
 (* handed back to LiteralTrace.tla as code points in the shard header):     *)
-(* the seven inline contexts with their Markdown template and the HTML the  *)
+(* the inline contexts with their Markdown template and the HTML the  *)
 (* renderer must produce around the literal text, the alphabet of t, and    *)
 (* the named character references used by the "named" form.                 *)
 (* "@" marks where the escaped text / the expected literal goes.            *)
@@ -14,6 +14,8 @@ Contexts == <<
   [name |-> "paragraph", md |-> "@\n",                         html |-> "<p>@</p>\n"],
   [name |-> "heading",   md |-> "# @\n",                       html |-> "<h1>@</h1>\n"],
   [name |-> "emphasis",  md |-> "*@*\n",                       html |-> "<p><em>@</em></p>\n"],
+  [name |-> "strong",    md |-> "**@**\n",                     html |-> "<p><strong>@</strong></p>\n"],
+  [name |-> "strike",    md |-> "~~@~~\n",                     html |-> "<p><s>@</s></p>\n"],
   [name |-> "linktext",  md |-> "[@](/u)\n",                   html |-> "<p><a href=\"/u\">@</a></p>\n"],
   [name |-> "alt",       md |-> "![@](/u)\n",                  html |-> "<p><img src=\"/u\" alt=\"@\"{x}></p>\n"],
   [name |-> "title",     md |-> "[x](/u \"@\")\n",             html |-> "<p><a href=\"/u\" title=\"@\">x</a></p>\n"],
